@@ -960,5 +960,110 @@ func (p *Prog) keptAliveDuring(tn *types.TypeName, method string) []string {
 			}
 		}
 	}
-	return []string{fmt.Sprintf("(*%s).%s does not keep its receiver reachable until it returns (no runtime.KeepAlive(receiver), no deferred call on the receiver) at %s", tn.Name(), method, p.Fset.Position(fn.Pos()))}
+	// no explicit keep-alive: the receiver is still reachable during every call the
+	// method makes if that call is handed the receiver (or a pointer into it), which the
+	// callee's frame then holds, or if the receiver is used again afterwards on some path
+	// (the compiler's liveness, which the collector follows, is "may be used later")
+	usesRecv := func(in ssa.Instruction) bool {
+		var ops [16]*ssa.Value
+		for _, op := range in.Operands(ops[:0]) {
+			if *op != nil && fromRecvPtr(*op, recv) {
+				return true
+			}
+		}
+		return false
+	}
+	reach := map[*ssa.BasicBlock]map[*ssa.BasicBlock]bool{}
+	var walk func(from, b *ssa.BasicBlock)
+	walk = func(from, b *ssa.BasicBlock) {
+		if reach[from][b] {
+			return
+		}
+		reach[from][b] = true
+		for _, sc := range b.Succs {
+			walk(from, sc)
+		}
+	}
+	for _, b := range fn.Blocks {
+		reach[b] = map[*ssa.BasicBlock]bool{}
+		for _, sc := range b.Succs {
+			walk(b, sc)
+		}
+	}
+	var bad []string
+	for _, b := range fn.Blocks {
+		for i, in := range b.Instrs {
+			call, ok := in.(*ssa.Call)
+			if !ok {
+				continue
+			}
+			if _, isBuiltin := call.Call.Value.(*ssa.Builtin); isBuiltin {
+				continue
+			}
+			held := false
+			for _, a := range call.Call.Args {
+				if fromRecvPtr(a, recv) {
+					held = true
+				}
+			}
+			if !call.Call.IsInvoke() && fromRecvPtr(call.Call.Value, recv) {
+				held = true
+			}
+			if held {
+				continue
+			}
+			later := false
+			for _, in2 := range b.Instrs[i+1:] {
+				if usesRecv(in2) {
+					later = true
+				}
+			}
+			for b2 := range reach[b] {
+				for _, in2 := range b2.Instrs {
+					if usesRecv(in2) {
+						later = true
+					}
+				}
+			}
+			if !later {
+				bad = append(bad, fmt.Sprintf("(*%s).%s: during the call at %s the receiver is unreachable (it is not passed on and not used afterwards, and the method neither calls runtime.KeepAlive(receiver) nor defers a call on it)", tn.Name(), method, p.Fset.Position(call.Pos())))
+			}
+		}
+	}
+	return bad
+}
+
+// fromRecvPtr: v is the receiver pointer itself or a pointer into the object it points
+// to (not a value loaded out of it): holding v keeps the object alive.
+func fromRecvPtr(v ssa.Value, recv *ssa.Parameter) bool {
+	for d := 0; d < 6 && v != nil; d++ {
+		if v == ssa.Value(recv) {
+			return true
+		}
+		switch x := v.(type) {
+		case *ssa.MakeInterface:
+			v = x.X
+		case *ssa.ChangeInterface:
+			v = x.X
+		case *ssa.FieldAddr:
+			v = x.X
+		case *ssa.UnOp:
+			if x.Op != token.MUL {
+				return false
+			}
+			cell, ok := x.X.(*ssa.Alloc)
+			if !ok || cell.Referrers() == nil {
+				return false // a value loaded out of the object
+			}
+			v = nil
+			for _, r := range *cell.Referrers() {
+				if st, ok := r.(*ssa.Store); ok && st.Addr == ssa.Value(cell) {
+					v = st.Val
+				}
+			}
+		default:
+			return false
+		}
+	}
+	return false
 }
